@@ -314,6 +314,7 @@ PROPERTIES["C16"] = {
         {"test": "TestC16Differential", "quick": 5000, "thorough": 2000000},
         {"test": "TestC16Unit", "quick": 30000, "thorough": 4000000},
         {"test": "TestC16Adapter", "quick": 20000, "thorough": 4000000},
+        {"test": "TestC16Routes", "quick": 600, "thorough": 160000},
         {"test": "FuzzPacket", "kind": "fuzz", "pkg": "light", "fuzztime_s": 180, "tiers": ["thorough"]},
     ],
 }
